@@ -95,6 +95,7 @@ func (g *Engine) Start() error {
 	// Start TCP/Unix listener pollers.
 	for _, l := range g.listeners {
 		g.Add(1)
+		g.wgAccept.Add(1)
 		go l.start()
 	}
 
@@ -243,11 +244,25 @@ func (engine *Engine) DialAsyncTimeout(network, addr string, timeout time.Durati
 		}
 	}
 
+	// Count the connection under the engine mutex, so that it is either counted
+	// before Stop starts waiting for the connections or refused.
+	engine.mux.Lock()
+	if engine.stopping {
+		engine.mux.Unlock()
+		_ = syscall.Close(fd)
+		return net.ErrClosed
+	}
 	engine.wgConn.Add(1)
+	engine.mux.Unlock()
 	_, err = engine.addDialer(c)
 	if err != nil {
 		engine.wgConn.Done()
 		return err
+	}
+	if engine.isStopping() {
+		// Stop began meanwhile and may have missed this connection.
+		_ = c.Close()
+		return nil
 	}
 
 	if !inprogress {
